@@ -2284,6 +2284,63 @@ def comp_paramuse(prop, tier, comp, work):
     return out
 
 
+# AVX comparison predicates (immintrin.h): ordered signalling (_OS) / quiet (_OQ) forms of the same relation are both accepted
+CMP_PRED = {"cmpge": (("13", "29"), "_CMP_GE_OS", "cmpge"), "cmpgt": (("14", "30"), "_CMP_GT_OS", "cmpgt"), "cmple": (("2", "18"), "_CMP_LE_OS", "cmple"),
+            "cmplt": (("1", "17"), "_CMP_LT_OS", "cmplt"), "cmpeq": (("0", "16"), "_CMP_EQ_OQ", "cmpeq"), "cmpneq": (("4", "12"), "_CMP_NEQ_UQ", "cmpneq")}
+
+def _simd_norm(call):
+    """an x86 intrinsic call with its precision suffix erased: _mm256_add_ps(x,y) / _mm256_add_pd(x,y) -> _mm256_add_p?(x,y)"""
+    pc = parse_call(call)
+    if not pc:
+        return None
+    name = re.sub(r"_(ps|pd)$", "_p?", pc[0])
+    name = re.sub(r"(cmp|round|blendv|sqrt|max|min|add|sub|mul|div)(ps|pd)(\d*)$", r"\1p?\3", name)
+    return name, tuple(a.replace(" ", "") for a in pc[1])
+
+
+def rule_simdsib(rows, prop):
+    """R-SIMDSIB: in the x86 back ends every operation of simd_op_t is written twice, for float and for double. The two branches
+    must call the same intrinsic up to the precision suffix with the same arguments (incl. the comparison predicate), and a
+    comparison cmpXX must use the predicate of its own name."""
+    findings, n, samples = [], 0, []
+    for r in rows:
+        if "fn" not in r or r.get("lambda") or "simd_op_t<" not in r["fn"] or not re.search(r"/eval/simd/x86_\w+\.hpp$", r["file"]):
+            continue
+        op = r["fn"].split("::")[-1]
+        rets = [f for f in r["facts"] if f["k"] == "return" and parse_call(f["a"])]
+        fl = [f for f in rets if re.search(r"(_ps|ps\d*)\(", f["a"])]
+        db = [f for f in rets if re.search(r"(_pd|pd\d*)\(", f["a"])]
+        if not fl or not db:
+            continue
+        n += 1
+        a, b = _simd_norm(fl[0]["a"]), _simd_norm(db[0]["a"])
+        if a != b:
+            findings.append(finding("R-SIMDSIB", prop, r, "%s | %s" % (fl[0]["a"], db[0]["a"]), "float and double branches of simd op '%s' call different operations / arguments" % op, db[0].get("line"))); continue
+        if op in CMP_PRED:
+            txt = fl[0]["a"].replace(" ", "")
+            pred_ok = CMP_PRED[op][2] in txt or any(txt.endswith("," + p_ + ")") for p_ in CMP_PRED[op][0]) or txt.endswith("," + CMP_PRED[op][1] + ")")
+            if not pred_ok:
+                findings.append(finding("R-SIMDSIB", prop, r, fl[0]["a"], "comparison '%s' does not use its own predicate (%s)" % (op, CMP_PRED[op][1]), fl[0].get("line"))); continue
+        if len(samples) < 2:
+            samples.append("R-SIMDSIB %s: %s ~ %s" % (op, fl[0]["a"], db[0]["a"]))
+    return findings, n, samples
+
+
+def comp_simdsib(prop, tier, comp, work):
+    t0 = time.time()
+    tu = os.path.join(work, "umb_simd_sib.cpp")
+    open(tu, "w").write('#include "nmtools/array/eval/simd/x86_avx.hpp"\n#include "nmtools/array/eval/simd/x86_sse.hpp"\n')
+    rows, err, cmd = run_nmlint(tu, filters=["include/nmtools/array/eval/simd/x86_"], flags=["-mavx2", "-mfma"])
+    out = dict(broken=[], units=1, functions=len(rows), cmd=cmd)
+    if err:
+        out["broken"].append(err); return out
+    f, n, samples = rule_simdsib(rows, prop)
+    if n == 0:
+        out["broken"].append("R-SIMDSIB: no float/double operation pair found in the x86 back ends (anchor vanished)")
+    out.update(findings=f, instances={"R-SIMDSIB": n}, evaluations=n, distinct_nontrivial=n - len(f), samples=samples, wall_s=round(time.time() - t0, 2))
+    return out
+
+
 # --------------------------------------------------------------------------------------------
 # driver
 # --------------------------------------------------------------------------------------------
@@ -2324,4 +2381,4 @@ def comp_fwd_array(prop, tier, comp, work):
     return out
 
 
-RULES = {"R-FWD.array": comp_fwd_array, "R-FWD.functional": comp_fwd_functional, "R-UFUNC": comp_ufunc, "R-KSIB": comp_ksib, "R-SIMD": comp_simd, "R-CONSTBRANCH": comp_constbranch, "R-TRAITPROV": comp_traitprov, "R-MAYBE-DIV": comp_maybe_div, "R-OWN": comp_own, "R-EVAL": comp_eval, "R-EQSHAPE": comp_eqshape, "R-PAIR": comp_pair, "R-FOLD": comp_fold, "R-MEMCOPY": comp_memcopy, "R-AXISNORM": comp_axisnorm, "R-AXISNORM.simd": comp_axisnorm_simd, "R-UFWD.reduce": comp_ufwd_reduce, "R-PARAMUSE": comp_paramuse, "R-GETFN": comp_getfn, "R-MAYBE.broadcast": comp_maybe_bcast}
+RULES = {"R-FWD.array": comp_fwd_array, "R-FWD.functional": comp_fwd_functional, "R-UFUNC": comp_ufunc, "R-KSIB": comp_ksib, "R-SIMD": comp_simd, "R-CONSTBRANCH": comp_constbranch, "R-TRAITPROV": comp_traitprov, "R-MAYBE-DIV": comp_maybe_div, "R-OWN": comp_own, "R-EVAL": comp_eval, "R-EQSHAPE": comp_eqshape, "R-PAIR": comp_pair, "R-FOLD": comp_fold, "R-MEMCOPY": comp_memcopy, "R-AXISNORM": comp_axisnorm, "R-AXISNORM.simd": comp_axisnorm_simd, "R-UFWD.reduce": comp_ufwd_reduce, "R-PARAMUSE": comp_paramuse, "R-GETFN": comp_getfn, "R-MAYBE.broadcast": comp_maybe_bcast, "R-SIMDSIB": comp_simdsib}
